@@ -156,13 +156,11 @@ QueryFails(j, T, I) ==
                     THEN {} ELSE {<<"C03", "query-deps-edges">>})
       [] j.q = "other_from" ->
               (IF keys = {<<d>> : d \in dep} THEN {} ELSE {<<"C03", "query-other-from-keys">>})
-              \cup (IF \A d \in dep : \/ got(<<d>>) = OtherSet(D, I, asImport, d)
-                                      \/ got(<<d>>) = OtherSet(D, I \ DontCare(D, I, asImport), asImport, d)
+              \cup (IF \A d \in dep : got(<<d>>) = OtherSet(D, I, asImport, d)
                     THEN {} ELSE {<<"C03", "query-other-from-edges">>})
       [] j.q = "other_on" ->
               (IF keys = {<<u>> : u \in upon} THEN {} ELSE {<<"C03", "query-other-on-keys">>})
-              \cup (IF \A u \in upon : \/ got(<<u>>) = OtherSet(D, I, asImported, u)
-                                       \/ got(<<u>>) = OtherSet(D, I \ DontCare(D, I, asImported), asImported, u)
+              \cup (IF \A u \in upon : got(<<u>>) = OtherSet(D, I, asImported, u)
                     THEN {} ELSE {<<"C03", "query-other-on-edges">>})
       [] OTHER -> {<<"MACHINERY", "unknown-query">>}
 
